@@ -91,17 +91,20 @@ pub fn single_feature(rng: &mut Rng, backgrounds: &[B], emit_pm: u32, rep: &mut 
                 emit(&s, sink);
             }
         }
-        // (4) all 641 statuses
+        // (4) all 641 statuses, at every step at which a status can be pending, for either side
         let mut seen: HashMap<u64, String> = HashMap::new();
-        for pps in statuses() {
-            let s = build(bg, true, 1, pps);
-            rep.eval("C17");
-            rep.nontriv("C17", fnv(&[3, fnv(&words(s.piece_board()))]) ^ fnv(&enc_pps(pps).bytes().map(|b| b as u64).collect::<Vec<_>>()));
-            if let Some(o) = seen.insert(s.transposition_hash(), enc_pps(pps)) {
-                fail(rep, "same-hash-for-different-status", format!("{} and {}", o, enc_pps(pps)));
-            }
-            if rng.chance(emit_pm.max(100), 1000) {
-                emit(&s, sink);
+        for (side, step) in [(true, 1), (true, 2), (true, 3), (false, 1), (false, 3)] {
+            for pps in statuses() {
+                let s = build(bg, side, step, pps);
+                rep.eval("C17");
+                rep.nontriv("C17", fnv(&[3, side as u64, step as u64, fnv(&words(s.piece_board()))]) ^ fnv(&enc_pps(pps).bytes().map(|b| b as u64).collect::<Vec<_>>()));
+                let name = format!("side {} step {} status {}", side, step, enc_pps(pps));
+                if let Some(o) = seen.insert(s.transposition_hash(), name.clone()) {
+                    fail(rep, "same-hash-for-different-status", format!("{} and {} on\n{}", o, name, diagram(bg, side, "5")));
+                }
+                if rng.chance(emit_pm.max(100) / 3, 1000) {
+                    emit(&s, sink);
+                }
             }
         }
     }
